@@ -322,3 +322,59 @@ def rule_operand_in_row(db: ProgramDB) -> List[Instance]:
                         f"an operand whose own row re-binds other variables (concatenate aggregates every binding it sees into "
                         f"lists) replaces the value of the other operand in the emitted row", line=y.lineno))
     return out
+
+
+# ---------------------------------------------------------------------------------- VOCAB-DENOTATION
+VOCABULARY = {
+    # function -> (constructed class / function, how the parameters map)
+    "for_all": ("ForAll", ["p0", "p1"]),
+    "flatten": ("Flatten", ["p0"]),
+    "concatenate": ("Concatenate", ["p0"]),
+    "not_": ("Not", ["p0"]),
+}
+
+
+def rule_vocab_denotation(db: ProgramDB) -> List[Instance]:
+    """The vocabulary functions of the user interface are thin: each returns, on every path, the node of its name built from
+    its parameters themselves, in order - not from an attribute of a parameter, not wrapped in another node, not the
+    parameter handed back unchanged when it 'already is' such a node."""
+    out = []
+    for fname, (target, want) in sorted(VOCABULARY.items()):
+        fn = db.fn(f"entity:{fname}", required=False)
+        if fn is None:
+            out.append(inst("VOCAB-DENOTATION", UNDECIDED, "", f"entity.{fname}", "function not found"))
+            continue
+        params = list(fn.positional_params)
+        pidx = {p: f"p{i}" for i, p in enumerate(params)}
+        rets = [r for r in returns_of(fn) if r.value is not None]
+        if not rets:
+            out.append(inst("VOCAB-DENOTATION", VIOLATION, fn, f"entity.{fname}", "returns nothing"))
+            continue
+        bad = None
+        for r in rets:
+            v = r.value
+            ok = False
+            if isinstance(v, ast.Call) and (dotted(v.func) or "").split(".")[-1] == target:
+                t = resolve_call_target(db, fn, v)
+                names = None
+                if isinstance(t, ClassInfo):
+                    names = [p for p, kw in t.init_params() if not kw]
+                elif isinstance(t, FuncInfo):
+                    names = [p for p, kw in fn_params(t, drop_self=False) if not kw]
+                if names is not None:
+                    try:
+                        amap = bind_args([(n, False) for n in names], v)
+                    except AnalysisError:
+                        amap = {}
+                    got = [amap.get(n) for n in names[:len(want)]]
+                    ok = len(amap) == len(want) and all(isinstance(a, ast.Name) and pidx.get(a.id) == w for a, w in zip(got, want))
+            if not ok:
+                bad = r
+                break
+        out.append(inst("VOCAB-DENOTATION", HOLDS if bad is None else VIOLATION, fn, f"entity.{fname}",
+                        f"every path returns {target}({', '.join(params[:len(want)])})" if bad is None else
+                        f"`{unparse(bad)[:80]}` is not {target}({', '.join(params[:len(want)])}): the node is built from something other than "
+                        f"the arguments themselves (an attribute of an argument loses what the argument restricts it to - a quantified "
+                        f"universal expression, a sub-query - and a wrapped or passed-through argument changes how often it is unnested)",
+                        line=bad.lineno if bad is not None else fn.lineno))
+    return out
